@@ -14,10 +14,10 @@ import types
 import z3
 
 from . import ops
-from .core import BYTES, INT, LSTR, PYVAL, STR, SV, ExcVal, PyRaise, Unsupported, lift
+from .core import BYTES, INT, PYVAL, STR, SV, ExcVal, PyRaise, Unsupported, lift
 from .heap import MapRef, Row, SeqRef
 from .laws import lawbook, py_decode, py_encode, py_isdigit
-from .values import BoundMethod, DictView, IFunc, LazyMap, ModelFn, Obj, Opaque, SeqVal
+from .values import BoundMethod, DictView, IFunc, LazyMap, ModelFn, Obj, Opaque, SeqVal, SymList
 
 
 def M(name):
@@ -58,7 +58,9 @@ def m_bool(it, a, k):
 def m_len(it, a, k):
     v = ops.specialize(it, a[0])
     if isinstance(v, SV):
-        if v.kind in ("str", "bytes"):
+        if v.kind == "str":
+            return ops.mk("int", lawbook(it.ctx).length(v.term))
+        if v.kind == "bytes":
             return ops.mk("int", z3.Length(v.term))
         it.raise_(TypeError, f"object of kind {v.kind} has no len()")
     if isinstance(v, (SeqVal,)):
@@ -66,7 +68,11 @@ def m_len(it, a, k):
     if isinstance(v, SeqRef):
         return ops.mk("int", z3.Length(v.term()))
     if isinstance(v, LazyMap):
-        return ops.mk("int", z3.Length(v.src.term))
+        return ops.mk("int", v.src.len_t)
+    if isinstance(v, SymList):
+        return ops.mk("int", v.len_t)
+    if isinstance(v, str):
+        return len(v)
     if isinstance(v, MapRef):
         raise Unsupported("len() of a symbolic dict")
     if v is None or isinstance(v, (int, float)):
@@ -182,7 +188,7 @@ def m_list(it, a, k):
     if not a:
         return []
     v = a[0]
-    if isinstance(v, (SeqVal, LazyMap)):
+    if isinstance(v, (SeqVal, LazyMap, SymList)):
         return v
     if isinstance(v, DictView):
         raise Unsupported("list() of a symbolic dict view")
@@ -515,6 +521,10 @@ def method_model(it, obj, name):
         if f is None:
             raise Unsupported(f"dict.{name} on a symbolic dict slot")
         return ModelFn(f"dict.{name}", lambda it2, a, k, _o=obj, _f=f: _f(it2, _o, a, k))
+    if isinstance(obj, SymList):
+        if name == "pop":
+            return ModelFn("symlist.pop", lambda it2, a, k, _o=obj: symlist_pop(it2, _o, a))
+        raise Unsupported(f"list.{name} on a list of symbolic length")
     if isinstance(obj, LazyMap):
         raise Unsupported(f"list.{name} on lazily mapped list")
     if isinstance(obj, dict):
@@ -605,10 +615,12 @@ def s_split(it, t, a, k):
     kind, sep = lift(a[0])
     if kind != "str":
         it.raise_(TypeError, "must be str or None")
-    lst = lawbook(it.ctx).split(t, sep)
-    r = SeqVal("str", lst, "list")
-    r.split_src = lst
-    return r
+    from .core import lit_value
+
+    if lit_value(sep) in (None, ""):
+        raise Unsupported("split with a symbolic or empty separator")
+    n, get = lawbook(it.ctx).split(t, sep)
+    return SymList(n, get)
 
 
 def s_split1(it, t, sep):
@@ -621,14 +633,16 @@ def s_join(it, t, a, k):
     if isinstance(v, (list, tuple)):
         parts = []
         for x in v:
-            x = ops.specialize(it, x)
+            x = ops.specialize(it, ops.force(x))
             if not (isinstance(x, str) or (isinstance(x, SV) and x.kind == "str")):
                 it.raise_(TypeError, "sequence item: expected str instance")
             parts.append(lift(x)[1])
         return ops.mk("str", lb.join_parts(t, parts))
-    if isinstance(v, SeqVal) and v.elem_kind == "str":
-        src = getattr(v, "split_src", None)
-        return ops.mk("str", lb.join_sym(t, v.term))
+    if isinstance(v, SymList):
+        n = z3.simplify(v.len_t)
+        if z3.is_int_value(n):
+            return ops.mk("str", lb.join_parts(t, [v.elem(i) for i in range(n.as_long())]))
+        raise Unsupported("join over a list of symbolic length")
     raise Unsupported("join over this iterable")
 
 
@@ -637,8 +651,16 @@ def s_encode(it, t, a, k):
 
 
 def s_find(it, t, a, k):
+    from .laws import s_find as F
+
     kind, sub = lift(a[0])
-    return ops.mk("int", z3.IndexOf(t, sub, 0))
+    lb = lawbook(it.ctx)
+    r = F(t, sub)
+    if lb._once("find", t, sub):
+        it.ctx.add_fact(r >= -1)
+        it.ctx.add_fact((r >= 0) == lb.contains(t, sub))
+        it.ctx.add_fact(z3.Implies(r >= 0, r + lb.length(sub) <= lb.length(t)))
+    return ops.mk("int", r)
 
 
 def s_isdigit(it, t, a, k):
@@ -646,13 +668,17 @@ def s_isdigit(it, t, a, k):
 
 
 def s_startswith(it, t, a, k):
+    from .laws import s_prefixof
+
     kind, p = lift(a[0])
-    return ops.mk("bool", z3.PrefixOf(p, t))
+    return ops.mk("bool", s_prefixof(p, t))
 
 
 def s_endswith(it, t, a, k):
+    from .laws import s_suffixof
+
     kind, p = lift(a[0])
-    return ops.mk("bool", z3.SuffixOf(p, t))
+    return ops.mk("bool", s_suffixof(p, t))
 
 
 STR_METHODS = {
@@ -666,6 +692,17 @@ STR_METHODS = {
     "startswith": s_startswith,
     "endswith": s_endswith,
 }
+
+
+def symlist_pop(it, lst, a):
+    if a:
+        raise Unsupported("list.pop(i) on a list of symbolic length")
+    ln = lst.len_t
+    if not it.branch(ln >= 1):
+        it.raise_(IndexError, "pop from empty list")
+    e = ops.mk("str", lst.elem(z3.simplify(ln - 1)))
+    lst.len_t = z3.simplify(ln - 1)
+    return e
 
 
 def q_pop(it, sv, a, k):
@@ -722,12 +759,37 @@ def r_popleft(it, sr, a, k):
     return e
 
 
+def r_pop(it, sr, a, k):
+    if sr.world.frozen:
+        raise Unsupported("write through an old-state reference")
+    if a:
+        raise Unsupported("pop(i) on a symbolic deque/list slot")
+    t = sr.term()
+    ln = z3.Length(t)
+    if not it.branch(ln >= 1):
+        it.raise_(IndexError, "pop from an empty deque")
+    e = ops.mk(sr.kind, t[ln - 1])
+    if it.write_log is not None:
+        it.write_log.append((sr.col, "pop"))
+    sr.set_term(z3.SubSeq(t, 0, ln - 1))
+    return e
+
+
+def r_appendleft(it, sr, a, k):
+    if sr.world.frozen:
+        raise Unsupported("write through an old-state reference")
+    if it.write_log is not None:
+        it.write_log.append((sr.col, "appendleft"))
+    sr.set_term(z3.Concat(z3.Unit(ops.to_kind_term(a[0], sr.kind)), sr.term()))
+    return None
+
+
 def r_clear(it, sr, a, k):
     sr.set_term(z3.Empty(sr.term().sort()))
     return None
 
 
-SEQREF_METHODS = {"append": r_append, "popleft": r_popleft, "clear": r_clear}
+SEQREF_METHODS = {"append": r_append, "popleft": r_popleft, "clear": r_clear, "pop": r_pop, "appendleft": r_appendleft}
 
 
 def d_get(it, m, a, k):
